@@ -91,7 +91,12 @@ def gen_restype(g, name, atypes, idx, allow_vs=True, allow_angles=True, max_atom
         constraints[:] = [[0, 2, round(2 * b + delta, 3)]]
         strained = True
     vsites = []
-    if allow_vs and n >= 2 and g.random() < (0.9 if impossible else vs_p):
+    if allow_vs and n == 1 and g.random() < 0.5 * vs_p:
+        # a bead with a virtual site constructed on top of it (Go-Martini style): no bonded term inside the residue,
+        # all particles on one point
+        vsites.append({"kind": "n", "funct": 1, "from": [0], "params": []})
+        atoms.append({"name": f"{prefix}V", "atype": g.choice(atypes)})
+    elif allow_vs and n >= 2 and g.random() < (0.9 if impossible else vs_p):
         kind = g.choice(["n1", "n1", "2"] + (["3", "3fd", "3fad", "3out", "nested"] if n >= 3 else []) +
                         (["4fdn"] if n >= 4 else []))
         site = {"name": f"{prefix}V", "atype": g.choice(atypes)}
